@@ -867,6 +867,8 @@ def run(ctx):
             jobs.append({'name': name, 'seed': int(ctx.seed * 1000003 + rep * 101 + k), 'tier': ctx.tier})
     # compiled forms first (long), shipped ones fill the gaps
     jobs.sort(key=lambda j: isinstance(FORMS[j['name']][2], tuple))
+    jobs.insert(0, {'name': 'parlay', 'seed': int(ctx.seed * 1000003 + 71), 'tier': ctx.tier})
+    jobs.append({'name': 'bdhist', 'seed': int(ctx.seed * 1000003 + 72), 'tier': ctx.tier})
     jobs.append({'name': '_sp10', 'seed': int(ctx.seed), 'tier': ctx.tier})
     join = start_workers(ctx, jobs)
     ctx.require_lean(['Pyiga.Props.C01', 'drv_c01'])
@@ -992,10 +994,159 @@ def _worker_sp10(seed):
     return out
 
 
+def _t_parlay(o):
+    K = o.par['K']; a = o.par['a']
+    return [(0, 0, o.G(p, 1), o.G(q, 0), K[p, q]) for p in range(2) for q in range(2)] + [(0, 0, o.U0(1), o.G(k, 0), a[k]) for k in range(2)]
+
+
+PARLAY_FORM = 'inner(K.dot(grad(u)), grad(v))*dx + inner(a, grad(u))*v*dx'
+
+
+def _compare_dense(A, ref, refa, cfac):
+    A = np.asarray(A.toarray() if hasattr(A, 'toarray') else A)
+    if A.shape != ref.shape:
+        return 'shape %s instead of %s' % (A.shape, ref.shape)
+    err = np.abs(A - ref); tol = cfac * refa + 1e-300
+    bad = np.argwhere(~(err <= tol))
+    if len(bad):
+        i, j = [int(x) for x in bad[0]]
+        return 'entry (%d,%d) = %r but the Gauss sum of the definition is %r (tolerance %g; %d entries differ, max |diff| %.3g)' % (
+            i, j, float(A[i, j]), float(ref[i, j]), float(tol[i, j]), len(bad), float(err.max()))
+    return None
+
+
+def _worker_parlay(seed, tier):
+    """parameters of shape (d,), (d,d) in every memory layout / container, at construction and through update_params"""
+    nqp_log = install_nqp_recorder()
+    import pyiga
+    from pyiga import assemble
+    pyiga.set_max_threads(1)
+    out = {'name': 'parlay', 'status': 'ok', 'violations': [], 'lean': [], 'reqs': [], 'counts': {}}
+    FORMS['_parlay'] = (2, 2, PARLAY_FORM, None, False, {}, _t_parlay, False, 1)
+    case = make_case('_parlay', seed, tier)
+    rng = case['rng']; kvs = case['kvs0']; geo = case['geo']
+    desc = {'form': PARLAY_FORM, 'seed': seed, 'kvs0': [(kv.kv.tolist(), kv.p) for kv in kvs], 'geometry': case['gkind']}
+    out['desc'] = desc
+    # a non-symmetric integer-valued matrix (so that the int-dtype variant denotes the same parameter)
+    K = rng.integers(-3, 4, size=(2, 2)).astype(float) + 3 * np.eye(2)
+    if K[0, 1] == K[1, 0]:
+        K[0, 1] += 1.0
+    a = rng.integers(-3, 4, size=2).astype(float)
+    if a[0] == a[1]:
+        a[0] += 1.0
+    big = np.zeros((4, 4)); big[::2, ::2] = K
+    bigv = np.zeros(6); bigv[::3] = a
+    Kvars = {'C-ordered': np.ascontiguousarray(K), 'F-ordered': np.asfortranarray(K), 'transposed view': np.ascontiguousarray(K.T).T,
+             'strided view': big[::2, ::2], 'nested list': K.tolist(), 'nested tuple': tuple(map(tuple, K.tolist())),
+             'int dtype': K.astype(np.int64), 'F-ordered int': np.asfortranarray(K.astype(np.int32)), 'float32': K.astype(np.float32)}
+    avars = {'array': a.copy(), 'strided view': bigv[::3], 'list': a.tolist(), 'tuple': tuple(a.tolist()), 'int dtype': a.astype(np.int64),
+             'reversed view of reversed copy': np.ascontiguousarray(a[::-1])[::-1]}
+    for v in Kvars.values():
+        assert np.array_equal(np.asarray(v, dtype=float), K)
+    for v in avars.values():
+        assert np.array_equal(np.asarray(v, dtype=float), a)
+    case['args'].update({'K': K, 'a': a})
+    FORMS['_parlay'] = (2, 2, PARLAY_FORM, None, False, {'K': 'par2', 'a': 'par1'}, _t_parlay, False, 1)
+    try:
+        o, nqp, grid, gw = build_oracle('_parlay', case)
+        terms = _t_parlay(o); terms_abs = _t_parlay(AbsOracle(o))
+        n = int(np.prod([kv.numdofs for kv in kvs]))
+        ref = assemble_terms(terms, 2, o.W, None)[(0, 0)]; refa = assemble_terms(terms_abs, 2, o.W, None, absolute=True)[(0, 0)]
+        cfac = 4.0 * (o.nn + 40 * (4 + len(terms))) * EPS
+        K0 = np.eye(2); a0 = np.zeros(2)
+        new = lambda Kv, av: quiet_call(lambda: assemble.instantiate_assembler(PARLAY_FORM, kvs, {'geo': geo, 'K': Kv, 'a': av}, None))
+        base = assemble.assemble_entries(new(K, a)).toarray()
+        for kn, Kv in Kvars.items():
+            for an, av in (list(avars.items()) if kn == 'C-ordered' else [('array', a)]):
+                for path in ('construction', 'update_params'):
+                    try:
+                        if path == 'construction':
+                            asm = new(Kv, av)
+                        else:
+                            asm = new(K0, a0)
+                            asm.update_params(K=Kv, a=av)
+                        A = assemble.assemble_entries(asm)
+                    except BaseException as ex:
+                        out['violations'].append(('param-layout', 'parameter K given as %s, a as %s (%s): %s: %s' % (kn, an, path, type(ex).__name__, str(ex)[:150]), desc, True))
+                        continue
+                    out['counts']['parameter layout cases'] = out['counts'].get('parameter layout cases', 0) + 1
+                    why = _compare_dense(A, ref, refa, cfac)
+                    if why is None and not np.array_equal(A.toarray(), base):
+                        why = 'differs bitwise from the assembler constructed with C-ordered float arrays'
+                    if why:
+                        out['violations'].append(('param-layout', 'parameter K = %s given as %s, a = %s given as %s (%s): %s' % (K.tolist(), kn, a.tolist(), an, path, why), desc, True))
+        # the caller's arrays are not modified
+        if not (np.array_equal(Kvars['F-ordered'], K) and np.array_equal(avars['strided view'], a)):
+            out['violations'].append(('param-layout', 'parameter arrays of the caller were modified', desc, True))
+    finally:
+        FORMS.pop('_parlay', None)
+    return out
+
+
+def _worker_bdhist(seed, tier):
+    """a history of boundary / volume assemblies through ONE args dict: each result against the oracle of that single call"""
+    nqp_log = install_nqp_recorder()
+    import pyiga
+    from pyiga import assemble, assemblers
+    pyiga.set_max_threads(1)
+    out = {'name': 'bdhist', 'status': 'ok', 'violations': [], 'lean': [], 'reqs': [], 'counts': {}}
+    case = make_case('bdry', seed, tier)
+    rng = case['rng']; kvs = case['kvs0']
+    problem = FORMS['bdry'][2]
+    args = dict(case['args'])          # the ONE dict reused by every call
+    snapshot = {k: (v.copy() if isinstance(v, np.ndarray) else v) for k, v in args.items()}
+    desc = {'form': problem, 'seed': seed, 'kvs0': [(kv.kv.tolist(), kv.p) for kv in kvs], 'geometry': case['gkind'], 'phys': case['meta']}
+    out['desc'] = desc
+    names = {(1, 0): 'left', (1, 1): 'right', (0, 0): 'bottom', (0, 1): 'top'}
+    sides = [(0, 0), (0, 1), (1, 0), (1, 1)]
+    hist = [sides[int(k)] for k in rng.permutation(4)] + ['volume'] + [sides[int(k)] for k in rng.permutation(4)][:3]
+    done = []
+    for step, side in enumerate(hist):
+        if side == 'volume':
+            c2 = dict(case, boundary=None)
+            FORMS['_vol'] = FORMS['mass2']
+            try:
+                A = assemble.assemble(assemblers.MassAssembler2D, kvs, args=args)
+                o, nqp, grid, gw = build_oracle('mass2', c2)
+            finally:
+                FORMS.pop('_vol', None)
+            terms = _t_mass(o); terms_abs = _t_mass(AbsOracle(o))
+        else:
+            spec = names[side] if rng.integers(0, 2) else side
+            c2 = dict(case, boundary=side)
+            try:
+                A = quiet_call(lambda: assemble.assemble(problem, kvs, args=args, boundary=spec))
+            except BaseException as ex:
+                out['violations'].append(('boundary-history', 'boundary assembly %s after %s raised %s: %s' % (side, done, type(ex).__name__, str(ex)[:150]), desc, True))
+                break
+            o, nqp, grid, gw = build_oracle('bdry', c2)
+            terms = _t_gmass(o); terms_abs = _t_gmass(AbsOracle(o))
+        ref = assemble_terms(terms, 2, o.W, None)[(0, 0)]; refa = assemble_terms(terms_abs, 2, o.W, None, absolute=True)[(0, 0)]
+        cfac = max(4.0 * (o.nn + 40 * (4 + len(terms))) * EPS, 0.0)
+        why = _compare_dense(A, ref, refa, cfac)
+        out['counts']['boundary-history calls'] = out['counts'].get('boundary-history calls', 0) + 1
+        if why:
+            out['violations'].append(('boundary-history', 'call %d (%s) through the same args dict after %s: %s' % (step, side, done, why), dict(desc, history=[str(h) for h in hist]), True))
+            break
+        done.append(side)
+    # the caller's own entries are untouched (keys added by the library are recorded, not judged)
+    for k, v in snapshot.items():
+        same = (k in args) and (np.array_equal(args[k], v) if isinstance(v, np.ndarray) else args[k] is v)
+        if not same:
+            out['violations'].append(('boundary-history', 'entry %r of the caller\'s args dict was changed by assemble()' % k, desc, True))
+    added = sorted(set(args) - set(snapshot))
+    out['counts']['args dict: keys added by the library: ' + (','.join(added) or 'none')] = 1
+    return out
+
+
 _worker_orig = worker
 
 
 def worker(name, seed, tier):   # noqa: F811  (dispatch for the probe)
     if name == '_sp10':
         return _worker_sp10(seed)
+    if name == 'parlay':
+        return _worker_parlay(seed, tier)
+    if name == 'bdhist':
+        return _worker_bdhist(seed, tier)
     return _worker_orig(name, seed, tier)
